@@ -107,6 +107,10 @@ def simulate_and_monitor(ctx, spec, case, monitors, nontrivial=None, key_extra='
     ctx.current_built = b
     ctx.count('rejected_run_calls', getattr(b, 'rejected_runs', 0))
     ctx.count('bystander_model_operations', getattr(b, 'bystander_ops', 0))
+    ctx.count('driven_part_mounted_on_a_second_motor', getattr(b, 'remounts', 0))
+    if getattr(b, 'mid_schedule_failures', None) and any(x[0].startswith('remount:') for x in b.mid_schedule_failures):
+        ctx.violation('harness:remount-rejected', {'failures': b.mid_schedule_failures[:2]}, case)
+        return None
     if getattr(b, 'rejected_run_effects', None):
         ctx.violation('sanitizer:rejected-run-left-traces', {'effects': b.rejected_run_effects[:3]}, case)
         return None
